@@ -837,6 +837,10 @@ class PE:
                 pass
         if isinstance(v, Const) and isinstance(v.v, str) and isinstance(idx, Tup) and all(isinstance(i, Const) for i in idx.items):
             return Const(v.v[slice(*[i.v for i in idx.items])])
+        if isinstance(v, Tmpl) and isinstance(idx, Tup) and len(idx.items) == 3 and all(isinstance(i, Const) for i in idx.items):
+            lo, hi, st = [i.v for i in idx.items]
+            if isinstance(lo, int) and lo >= 0 and hi is None and st is None and v.parts and isinstance(v.parts[0], str) and len(v.parts[0]) >= lo:
+                return Tmpl([v.parts[0][lo:]] + list(v.parts[1:]))
         if isinstance(v, Py):
             return self.sym(f"{v.name}[{show(idx)}]", e, [idx])
         return self.sym(f"{show(v)}[{show(idx)}]", e, [v])
